@@ -399,14 +399,19 @@ func (r *FnResult) Discharge(opt SolveOptions) {
 	}
 	base := sanitize(shortKey(r.Key))
 	if len(idx) > 1 {
-		v, runs := Race(r.Script.Text(idx, true), opt.Dir, base+"__all", opt.Timeout, opt.NeedTwo)
+		v, runs := Race(r.Script.Text(idx, true), opt.Dir, base+"__all", opt.Timeout, false)
 		if v == "unsat" {
 			for _, i := range idx {
 				r.Obls[i].Result = "discharged"
 				r.Obls[i].Solver, r.Obls[i].Secs = winner(runs)
 				r.Obls[i].Detail = "discharged as part of the conjunction of all obligations of the function"
+				r.Obls[i].Agree = 1
 			}
-			return
+			if !opt.NeedTwo {
+				return
+			}
+			// thorough tier: go on and decide every obligation on its own as well, recording how many
+			// solvers agree
 		}
 	}
 	var wg sync.WaitGroup
@@ -473,6 +478,19 @@ func (r *FnResult) Discharge(opt SolveOptions) {
 			}
 			o.Solver, _ = winner(all)
 			o.Secs = secs
+			// agreement: the minimum over the parts of the number of distinct solvers answering unsat
+			o.Agree = 0
+			for k, pr := range out {
+				seen := map[string]bool{}
+				for _, rr := range pr.runs {
+					if rr.Answer == "unsat" {
+						seen[rr.Solver] = true
+					}
+				}
+				if k == 0 || len(seen) < o.Agree {
+					o.Agree = len(seen)
+				}
+			}
 			if len(parts) > 1 {
 				details = append([]string{fmt.Sprintf("goal split into %d conjuncts (one per return point / clause), each decided separately", len(parts))}, details...)
 			}
@@ -515,6 +533,11 @@ func splitGoal(f *TermFactory, g *Term) []*Term {
 func (r *FnResult) proveGoal(g *Term, name string, opt SolveOptions, takeDeep func() bool) (string, []SolverRun, string) {
 	text := func(with []*Term) string { return r.Script.TextFor([]*Term{g}, true, with) }
 	v, runs := Race(text(nil), opt.Dir, name, opt.Timeout, opt.NeedTwo)
+	if v == "unsat-single" {
+		// thorough tier: a second solver did not confirm within the timeout; the proof stands, the
+		// evidence records that only one solver found it
+		return "unsat", runs, ""
+	}
 	if v == "unsat" || v == "sat" {
 		return v, runs, runDetail(runs, v)
 	}
@@ -526,7 +549,7 @@ func (r *FnResult) proveGoal(g *Term, name string, opt SolveOptions, takeDeep fu
 	if ok, cruns, n := r.cutStage(g, opt, name); ok {
 		return "unsat", cruns, fmt.Sprintf("discharged by a cut on %d sequence equalities between arguments of the same specification function (%d solver queries, all unsat)", n, n+1)
 	}
-	v2, runs2 := Race(text(nil), opt.Dir, name, 4*opt.Timeout, opt.NeedTwo)
+	v2, runs2 := Race(text(nil), opt.Dir, name, 4*opt.Timeout, false)
 	runs = append(runs, runs2...)
 	if v2 == "unsat" || v2 == "sat" {
 		return v2, runs, runDetail(runs, v2)
@@ -583,7 +606,7 @@ func (r *FnResult) cutStage(g *Term, opt SolveOptions, name string) (bool, []Sol
 		wg.Add(1)
 		go func(k int, e *Term) {
 			defer wg.Done()
-			v, runs := Race(r.Script.TextFor([]*Term{g}, true, []*Term{negs[k]}), opt.Dir, fmt.Sprintf("%s__cut%d", name, k), opt.Timeout, opt.NeedTwo)
+			v, runs := Race(r.Script.TextFor([]*Term{g}, true, []*Term{negs[k]}), opt.Dir, fmt.Sprintf("%s__cut%d", name, k), opt.Timeout, false)
 			out[k].ok, out[k].runs = v == "unsat", runs
 		}(k, e)
 	}
@@ -600,7 +623,7 @@ func (r *FnResult) cutStage(g *Term, opt SolveOptions, name string) (bool, []Sol
 	if len(es) == 0 {
 		return false, nil, 0
 	}
-	v, runs := Race(r.Script.TextFor([]*Term{g}, true, es), opt.Dir, name+"__cutfinal", opt.Timeout, opt.NeedTwo)
+	v, runs := Race(r.Script.TextFor([]*Term{g}, true, es), opt.Dir, name+"__cutfinal", opt.Timeout, false)
 	if v != "unsat" {
 		return false, nil, 0
 	}
